@@ -107,6 +107,10 @@ fn base_trees() -> Vec<Tree> {
     t3.insert("a/sub/deeper/h".into(), Node::file(b"deeper", T0 + 443));
     t3.insert("b".into(), Node::file(b"bee", T0 + 444));
     t3.insert("z".into(), Node::symlink("a", T0 + 445));
+    // owners of which only one half has a name in the user/group databases (the index stores
+    // names): a named user with an unnamed group and the reverse
+    t3.insert("zu".into(), Node::file(b"half-named owner", T0 + 446).with_owner(0, 54_321));
+    t3.insert("zv".into(), Node::file(b"half-named owner 2", T0 + 447).with_owner(54_321, 0));
     vec![t1, t2, t3]
 }
 
